@@ -11,10 +11,12 @@ def setup(J):
             jobs.append(J.with_delay_fallback(j, 1 if q else 2))
         add("g2", 2, 2); add("g2", 1, 1, "cmd"); add("g5", 2, 2); add("g4", 1, 2); add("g7", 1, 2); add("g8", 1, 2); add("g13", 1, 2, cores=[1, 2]); add("g14a", 1, 1)
         # fan-out of one out-port with a tagging component on one arm: closed search can be long -> delay bound first
+        add("g14", 1, 1, id="C12-g14-i1-m1-func-dpor")  # closed search: the known AddTag race shows up after some hundred executions
         add("g14", 1, 2, mode="delay", delay=1 if q else 2, id="C12-g14-i1-m2-func-delay")
         add("g3", 2, 2, mode="delay", delay=1, id="C12-g3-i2-m2-delay")
         add("g6b", 2, 2, mode="delay", delay=1, id="C12-g6b-i2-m2-delay")
         add("gjoin", 2, 2, "cmd", extra=",", id="C12-gjoin-k2")
+        add("gsplit", 1, 2, mode="delay", delay=1, id="C12-gsplit-i1-m2-delay")
         if not q:
             add("g14", 1, 2); add("g4", 2, 2); add("g6", 1, 2); add("g3", 2, 2); add("g14", 2, 2, mode="delay", delay=2, id="C12-g14-i2-m2-delay"); add("g12", 3, 2, mode="delay", delay=2, id="C12-g12-i3-delay")
         # components with their own sender goroutines
